@@ -7,7 +7,9 @@
 //	c02 wazero <in.wat>             watutil.Wat2Wasm + wazero with a host module "syscall_linux"
 //	                                (print_i64/print_rune/print_str/proc_exit/GetArgc/GetArgvLen/GetArgvData);
 //	                                program output on stdout, last stderr line "STATUS ok|exit:<n>|trap:<msg>|error:<msg>"
-//	c02 walinux <in.wa> <out.wat>   the WAT text `wa native build` feeds to wat2x64 (TargetOS=linux, TargetArch=x64)
+//	c02 walinux <in.wa> <out.wat> [out.s]
+//	                                the WAT text `wa native build` feeds to wat2x64 (TargetOS=linux, TargetArch=x64); with out.s also
+//	                                the complete assembly file of native_x64.BuildApp_wa_wz (wat2x64 output + the program's NasmCode)
 //	c02 tmpl                        stdin: one "<name>\t<wat module text on one line>\t<marker>" per line; stdout per line:
 //	                                "<name>\t<hex of the assembly text emitted for the function body>"
 package main
@@ -148,11 +150,21 @@ func oneLine(s string) string {
 	return s
 }
 
-func waLinux(in, out string) {
+func waLinux(in, out, outS string) {
 	opt := &appbase.Option{WaBackend: config.WaBackend_Default, TargetArch: config.WaArch_x64, TargetOS: config.WaOS_linux}
 	cfg := opt.Config()
-	prog, err := loader.LoadProgram(cfg, in)
-	if err != nil {
+	var prog *loader.Program
+	var err error
+	if strings.HasSuffix(in, ".wa") || strings.HasSuffix(in, ".wz") {
+		prog, err = loader.LoadProgram(cfg, in) // what appnative.buildWat does
+	} else {
+		src, rerr := os.ReadFile(in) // WaGo (*.wa.go) text of the shared generator: not accepted by the CLI, loaded as a single file
+		if rerr != nil {
+			die(2, "%v", rerr)
+		}
+		prog, err = loader.LoadProgramFile(cfg, in, src)
+	}
+	if err != nil || prog == nil {
 		die(3, "load: %v", err)
 	}
 	output, err := compiler_wat.New().Compile(prog)
@@ -161,6 +173,18 @@ func waLinux(in, out string) {
 	}
 	if err := os.WriteFile(out, []byte(output), 0666); err != nil {
 		die(2, "%v", err)
+	}
+	if outS != "" {
+		asmText, err := x64Text(in, []byte(output))
+		if err != nil {
+			die(4, "wat2x64: %v", err)
+		}
+		if nc := prog.NasmCode(); len(nc) > 0 {
+			asmText = append(asmText, nc...)
+		}
+		if err := os.WriteFile(outS, asmText, 0666); err != nil {
+			die(2, "%v", err)
+		}
 	}
 	// native assembly / C code the program links in besides the translated WAT (cannot run on wazero)
 	fmt.Printf("nasm=%d clang=%d gccargs=%d\n", len(prog.NasmCode()), len(prog.ClangCode()), len(prog.GccArgsCode()))
@@ -209,7 +233,11 @@ func main() {
 	case "wazero":
 		runWazero(os.Args[2])
 	case "walinux":
-		waLinux(os.Args[2], os.Args[3])
+		outS := ""
+		if len(os.Args) > 4 {
+			outS = os.Args[4]
+		}
+		waLinux(os.Args[2], os.Args[3], outS)
 	case "tmpl":
 		vh.Loop(func(f []string, line string) string {
 			p := strings.SplitN(line, "\t", 2)
